@@ -3,6 +3,7 @@ package main
 import (
 	"fmt"
 	"math"
+	"math/big"
 	"net/url"
 	"runtime"
 	"strings"
@@ -153,6 +154,11 @@ func scenC17(c *ctx) {
 	for _, s := range []string{"", " ", "a", "12a", "1 2", "0", "00000000", "11111111", "99999999", "0x11", "1e5", "１２"} {
 		c.rec.Emit(doParseDecimalChallenge(k("qs"), s))
 	}
+	// thin slices: powers of two and of ten and their neighbours (word and limb boundaries of any bignum
+	// representation), values whose hex form has an odd number of digits, leading zeros
+	for _, s := range c.decimalAnchors() {
+		c.rec.Emit(doParseDecimalChallenge(k("qanchor"), s))
+	}
 	for _, s := range []string{"+5", "-5", strings.Repeat("9", 65), strings.Repeat("9", 200), strings.Repeat("9", 309)} {
 		c.rec.Emit(doParseDecimalChallenge(k("qunspec"), s))
 	}
@@ -238,6 +244,21 @@ func scenC16(c *ctx) {
 			c.rec.Emit(doURLRoundTrip(k("acc"), kind, "Example", piece, "JBSWY3DPEHPK3PXP", 8, 1, 60))
 			c.rec.Emit(doURLRoundTrip(k("sec"), kind, "Example", "bob", piece, 10, 2, 0))
 		}
+	}
+	// every single ASCII character (one reserved character mishandled is a thin slice of "all strings")
+	for ch := 1; ch < 128; ch++ {
+		if c.quick() && ch%2 == 1 && ((ch >= '0' && ch <= '9') || (ch >= 'a' && ch <= 'z') || (ch >= 'A' && ch <= 'Z')) {
+			continue
+		}
+		t := string(rune(ch))
+		kind := []string{"totp", "hotp"}[ch%2]
+		if ch != ':' {
+			c.rec.Emit(doURLRoundTrip(k("issch"), kind, "Ex"+t+"ample", "alice", "JBSWY3DPEHPK3PXP", 6, 0, 30))
+			c.rec.Emit(doURLRoundTrip(k("issch1"), kind, t+"Example"+t, "alice", "JBSWY3DPEHPK3PXP", 6, 0, 30))
+		}
+		c.rec.Emit(doURLRoundTrip(k("accch"), kind, "Example", "al"+t+"ice", "JBSWY3DPEHPK3PXP", 8, 1, 60))
+		c.rec.Emit(doURLRoundTrip(k("accch1"), kind, "Example", t+"alice"+t, "JBSWY3DPEHPK3PXP", 8, 1, 60))
+		c.rec.Emit(doURLRoundTrip(k("secch"), kind, "Example", "alice", "JBSW"+t+"Y3DP", 6, 2, 30))
 	}
 	// digits 0..255, periods, hashes
 	for d := 0; d < 256; d++ {
@@ -333,6 +354,46 @@ func (c *ctx) randGated(prop string, rounds int) {
 		c.rec.Emit(end)
 		c.rec.Release()
 	}
+}
+
+// decimalAnchors: 2^k and 10^k with neighbours, up to 64 decimal digits
+func (c *ctx) decimalAnchors() []string {
+	var out []string
+	seen := map[string]bool{}
+	add := func(x *big.Int) {
+		if x.Sign() < 0 {
+			return
+		}
+		t := x.String()
+		if len(t) <= 64 && !seen[t] {
+			seen[t] = true
+			out = append(out, t)
+		}
+	}
+	one := big.NewInt(1)
+	for k := uint(0); k <= 212; k++ {
+		if c.quick() && k%8 != 0 && k%32 != 31 && k%32 != 1 && k != 53 && k != 63 && k != 65 {
+			continue
+		}
+		p := new(big.Int).Lsh(one, k)
+		add(new(big.Int).Sub(p, one))
+		add(p)
+		add(new(big.Int).Add(p, one))
+	}
+	ten := big.NewInt(10)
+	for k := int64(1); k <= 63; k++ {
+		if c.quick() && k%3 != 0 && k != 19 && k != 20 && k != 38 {
+			continue
+		}
+		p := new(big.Int).Exp(ten, big.NewInt(k), nil)
+		add(new(big.Int).Sub(p, one))
+		add(p)
+		add(new(big.Int).Add(p, one))
+	}
+	for _, z := range []string{"0", "00", "01", "007", "0000000000000000000000000000000000000000000000000000000000000001"} {
+		out = append(out, z)
+	}
+	return out
 }
 
 // ---------------- C08 ----------------
